@@ -8,4 +8,17 @@ JOBS = [
  _j("table", "h_units", "real scpi_units_def vs golden table: accepted, base unit, multiplier (first match wins, so a shadowing/reordered/edited row fails)"),
  _j("unknown", "h_units_unknown", "unknown suffix -131", props=["C05", "C04"]),
  _j("special", "h_special", "nine special mnemonics, short and long form, any case -> tag"),
+ _j("names", "h_names", "every name of the real unit / special tables is short and the unit table is terminated", props=["C15", "C04"]),
+ dict(name="units.SCPI_NumberToStr.l12", props=["C15", "C01"], kind="PU", bound="string loops over the 12-byte buffer and the <= 9-character names unwound 14, unwinding assertions on",
+      harness="h_units_c.c", entry="h_SCPI_NumberToStr", enforce="SCPI_NumberToStr", contracts=["units.h"], defines=["NTS_MAXLEN=12"], loops=False,
+      replace=["SCPI_DoubleToStr", "translateUnitInverse", "SCPI_ChoiceToName", "strnlen"], cbmc_flags=["--unwind", "14", "--unwinding-assertions"], timeout=1500, cost=30, mem_gb=24,
+      assumes=["translateUnitInverse / SCPI_ChoiceToName enter as the abstraction 'NULL or a NUL-terminated text of at most 7 / 9 characters' (units.names proves the real tables satisfy it)",
+               "SCPI_DoubleToStr: assumed contract of the libc snprintf-based formatter"],
+      what="number with unit / special name: frame = the caller's len bytes (strncpy/strncat/strlen are CBMC's models), result < len, NUL-terminated; buffer length 0..12 symbolic"),
+ dict(name="units.SCPI_NumberToStr", props=["C15", "C01"], kind="PU", tier="thorough", bound="string loops over the 28-byte buffer and the <= 9-character names unwound 32, unwinding assertions on",
+      harness="h_units_c.c", entry="h_SCPI_NumberToStr", enforce="SCPI_NumberToStr", contracts=["units.h"], loops=False,
+      replace=["SCPI_DoubleToStr", "translateUnitInverse", "SCPI_ChoiceToName", "strnlen"], cbmc_flags=["--unwind", "32", "--unwinding-assertions"], timeout=1500, cost=30, mem_gb=24,
+      assumes=["translateUnitInverse / SCPI_ChoiceToName enter as the abstraction 'NULL or a NUL-terminated text of at most 7 / 9 characters' (units.names proves the real tables satisfy it)",
+               "SCPI_DoubleToStr: assumed contract of the libc snprintf-based formatter"],
+      what="number with unit / special name: frame = the caller's len bytes (strncpy/strncat/strlen are CBMC's models), result < len, NUL-terminated; buffer length 0..28 symbolic"),
 ]
